@@ -46,9 +46,10 @@ def check(an: Analysis) -> None:
         if not forwards_varargs(parts[0], va, kwa, lead):
             ob.fail(f, parts[0], "the executor does not run self._function with exactly the caller's arguments")
         rets = [r for r in f.own_nodes() if isinstance(r, ast.Return)]
+        dfn = Deps(prog, f)
         for r in rets:
             v = unwrap(r.value)
-            if not (isinstance(v, ast.Await) and isinstance(unwrap(v.value), ast.Call) and an.callee(f, unwrap(v.value)) == "asyncio.AbstractEventLoop.run_in_executor"):
+            if not (isinstance(v, ast.Await) and dfn.origins(v.value) == {"call:asyncio.AbstractEventLoop.run_in_executor"}):
                 ob.fail(f, r, "the awaited executor result (value or exception) is not what the wrapper returns")
         if not rets:
             ob.fail(f, None, "wrapper returns nothing")
@@ -107,8 +108,7 @@ def check(an: Analysis) -> None:
             and isinstance(fn_arg, ast.Attribute)
             and fn_arg.attr == "run"
             and d.origins(fn_arg.value) == {"call:contextvars.copy_context"}
-            and isinstance(unwrap(c.args[2]), ast.Call)
-            and an.callee(f, unwrap(c.args[2])) == "functools.partial"
+            and d.origins(c.args[2]) == {"call:functools.partial"}
         )
         if not ok:
             ob.fail(f, c, "the function is submitted to the executor without `copy_context().run`: it does not observe the caller's scope state (MissingContext) / could leak context changes")
@@ -265,10 +265,15 @@ def check(an: Analysis) -> None:
         f = prog.fn(fq)
         g = an.cfg(f)
         tgt = f.param_names()[0] if fq.endswith(".mimic") else "within"
-        loops = [n for n in f.own_nodes() if isinstance(n, ast.For) and isinstance(n.iter, (ast.Tuple, ast.List))]
+        def attr_tuple(e: ast.AST):
+            if isinstance(e, ast.Name) and not prog.is_local(f, e.id):
+                e = f.module.assigns.get(e.id, e)
+            return e if isinstance(e, (ast.Tuple, ast.List)) else None
+
+        loops = [n for n in f.own_nodes() if isinstance(n, ast.For) and attr_tuple(n.iter) is not None]
         copied: set[str] = set()
         for lp in loops:
-            names = {e.value for e in lp.iter.elts if isinstance(e, ast.Constant) and isinstance(e.value, str)}
+            names = {e.value for e in attr_tuple(lp.iter).elts if isinstance(e, ast.Constant) and isinstance(e.value, str)}
             sets = [c for c in ast.walk(lp) if isinstance(c, ast.Call) and is_name(c.func, "setattr") and len(c.args) == 3 and is_name(c.args[0], tgt) and is_name(c.args[1], lp.target.id if isinstance(lp.target, ast.Name) else "")]
             ok = any(isinstance(c.args[2], ast.Call) and is_name(c.args[2].func, "getattr") and len(c.args[2].args) >= 2 and is_name(c.args[2].args[0], src_name) and is_name(c.args[2].args[1], lp.target.id) for c in sets)
             if ok:
